@@ -4,8 +4,8 @@ from props import tbcommon as tb
 
 PROP = "C06"
 ENGINE = "tb"
-LEAN_TARGETS = ["H5V.Props.C06", "H5V.Props.C06Inv", "H5V.Props.C06Inv2"]
-AUDIT_IMPORTS = ["H5V.Props.C06Inv", "H5V.Props.C06Inv2"]
+LEAN_TARGETS = ["H5V.Props.C06", "H5V.Props.C06Inv", "H5V.Props.C06Inv2", "H5V.Props.C06Inv3"]
+AUDIT_IMPORTS = ["H5V.Props.C06Inv", "H5V.Props.C06Inv2", "H5V.Props.C06Inv3"]
 THEOREMS = ["H5V.Props.C06." + t for t in [
     "C06_skeleton_iff", "C06_split_run_nonempty", "C06_split_run_concat", "C06_chars_token_nonempty",
     "C06_empty_chars_dropped", "C06_text_ops_never_detach", "C06_no_adjacent_text_run_partial",
@@ -21,7 +21,11 @@ THEOREMS = ["H5V.Props.C06." + t for t in [
     # head then body | frameset followed only by noframes / reconstructed formatting elements; only whitespace text
     "C06_shape_every_state", "C06_html_children", "C06_html_children_prefix", "C06_html_children_body",
     "C06_htmlKidsOk_iff", "C06_html_children_fmt_in_af", "C06_html_children_partial", "C06_html_text_whitespace",
-    "C06_html_children_every_state"]]
+    "C06_html_children_every_state",
+    # no two adjacent text siblings, for all token lists (Props/C06Inv3.lean), and the whole predicate
+    "C06_adj_every_state", "C06_no_adjacent_text_every_state", "C06_no_adjacent_text", "C06_noAdjacentText",
+    "C06_child_links", "C06_child_links_every_state", "C06_open_element_not_before_text", "C06_node_clauses",
+    "C06_skeleton_or_known", "C06_skeleton_partial", "skeletonK_of_skeleton"]]
 TRUSTED = [
     "Lean 4 kernel; axioms ⊆ {propext, Classical.choice, Quot.sound} (audited per run)",
     "hand-written model lean/H5V/Model/HtmlTB/*.lean of html5ever/src/tree_builder/{mod,rules,data,tag_sets,types}.rs "
